@@ -1,6 +1,7 @@
 /-
   Model.Padding — crysp/padding.py as an explicit state machine (after the `fix:` commits: empty non-final
-  piece yields nothing; MD/SHA/Blake `remove` work on bytes; X9.23 rejects pad length 0).
+  piece yields nothing; MD/SHA/Blake `remove` work on bytes; X9.23 rejects pad length 0; explicit `bitlen=0`;
+  absolute bit length handed to `lastblock`; padding-only tail reports `bitcnt = 0`).
 
   A generator is modelled by the list of its yields, each paired with the object state a consumer can observe
   *at that yield* (BLAKE reads `bitcnt` there), the state left behind, and the exception (if any) that ended it.
@@ -116,31 +117,47 @@ def lastblock (p : Padder) (st : PadState) (m : List Nat) (bitlenKw : Option Nat
   | .blake h =>
     mdLike p st m bitlenKw (blakeW h) 2 (some (if h = 256 ∨ h = 512 then 1 else 0)) true
 
-/-- `iterblocks(m, bitlen=…, padding=…)` -/
+/-- state left behind when `lastblock` raises: only `pkcs7` mutates the object before the failing statement
+    (`bytes([q])` with q ≥ 256) -/
+def lastblockErrState (p : Padder) (st : PadState) (m : List Nat) : PadState :=
+  match p.scheme with
+  | .pkcs7 =>
+    let q := if p.blocklen - m.length = 0 then p.blocklen else p.blocklen - m.length
+    { padflag := true, bitcnt := st.bitcnt + 8 * m.length, padcnt := 8 * q }
+  | _ => st
+
+/-- number of blocks the `while` loop of `iterblocks` yields: those i with (i+1)·B < bitlen -/
+def loopCount (p : Padder) (bitlen : Nat) : Nat := if bitlen = 0 then 0 else (bitlen - 1) / p.blocksize
+
+/-- i-th block of the byte string -/
+def blockAt (p : Padder) (m : List Nat) (i : Nat) : List Nat := (m.drop (i * p.blocklen)).take p.blocklen
+
+/-- the yields of the `while` loop -/
+def loopYields (p : Padder) (st : PadState) (m : List Nat) (k : Nat) : List (List Nat × PadState) :=
+  (List.range k).map fun i => (p.blockAt m i, { st with bitcnt := st.bitcnt + (i + 1) * p.blocksize })
+
+/-- `iterblocks(m, bitlen=…, padding=…)` (after the `fix:` commits: an explicit `bitlen=0` is 0; `lastblock`
+    receives the absolute bit length `start+bitlen`; a tail without message bits reports `bitcnt = 0`) -/
 def iterblocks (p : Padder) (st : PadState) (m : List Nat) (bitlenKw : Option Nat := none)
     (padding : Bool := true) : IterResult :=
   if st.padflag then ⟨[], st, some "PaddingError:padding already added"⟩ else
   let mlen := 8 * m.length
-  let bitlen := match bitlenKw with
-    | none => mlen
-    | some 0 => mlen
-    | some b => b
+  let bitlen := bitlenKw.getD mlen
   if bitlen > mlen then ⟨[], st, some "PaddingError:input bitlen mismatch"⟩ else
   if !padding ∧ bitlen % p.blocksize > 0 then ⟨[], st, some "PaddingError:input not a multiple of block size"⟩ else
   if !padding ∧ bitlen = 0 then ⟨[], st, none⟩ else
   let B := p.blocksize
   let bl := p.blocklen
-  -- full blocks yielded by the while loop: those i with (i+1)·B < bitlen
-  let k := if bitlen = 0 then 0 else (bitlen - 1) / B
+  let k := p.loopCount bitlen
   let start := st.bitcnt
-  let ys : List (List Nat × PadState) := (List.range k).map fun i =>
-    ((m.drop (i * bl)).take bl, { st with bitcnt := start + (i + 1) * B })
-  let st1 : PadState := if k = 0 then st else { st with bitcnt := start + k * B }
-  let pi := (m.drop (k * bl)).take bl
+  let ys := p.loopYields st m k
+  let st1 : PadState := { st with bitcnt := start + k * B }
+  let pi := p.blockAt m k
   if padding then
-    match p.lastblock st1 pi bitlenKw with
-    | .error e => ⟨ys, st1, some e⟩
+    match p.lastblock st1 pi (bitlenKw.map (start + ·)) with
+    | .error e => ⟨ys, p.lastblockErrState st1 pi, some e⟩
     | .ok (npi, st2) =>
+      let st2 : PadState := if st2.bitcnt = st1.bitcnt then { st2 with bitcnt := 0 } else st2
       let b := npi.take bl
       let lastb := npi.drop bl
       if lastb.length > 0 then
